@@ -171,3 +171,47 @@ pub fn run_sinks(a: &Args) {
         "packets of Gen_Packet x {plain, compressed} x writers: growable Cursor<Vec> at offsets 0/2/7 over storage with no / shorter / longer pre-existing content; fixed &mut [u8] and Cursor<&mut [u8]> (offset 0 and 3) of every capacity 0..len+2 (every 4th packet; boundary capacities otherwise); non-trivial = any",
         false));
 }
+
+/// step-level binding of the compressor: one CompReset / CompName / CompStep* session per packet
+pub fn run_steps(a: &Args) {
+    let mut out = Out::new(&a.out, a.shards);
+    let mut st = Stats::default();
+    let mut pkts: Vec<Value> = load_cases(a, 0).into_iter().map(|c| c["pkt"].clone()).collect();
+    for t in [16376usize, 16380, 16382, 16383, 16384, 16386, 16390, 20000] {
+        pkts.push(big_recipe(t, 0));
+    }
+    for (si, pkt) in pkts.iter().enumerate() {
+        let p = match construct_packet(pkt) {
+            Ok(p) => p,
+            Err(_) => continue,
+        };
+        simple_dns::verif::arm_trace();
+        let _ = simple_dns::verif::take_names();
+        let r = guarded(|| p.build_bytes_vec_compressed().is_ok());
+        let steps = simple_dns::verif::take_trace();
+        let names = simple_dns::verif::take_names();
+        if r != Ok(true) {
+            continue;
+        }
+        out.emit_to(si, json!({"ev": "CompReset"}));
+        let mut n = 0u64;
+        for s in &steps {
+            match s[0] {
+                10 | 14 => {
+                    let labels: Vec<Value> = names[(s[1] - 1) as usize].iter().map(|l| bytes_json(l)).collect();
+                    out.emit_to(si, json!({"ev": "CompName", "arm": s[0], "labels": labels}));
+                }
+                11 => out.emit_to(si, json!({"ev": "CompStep", "arm": 11, "i": s[1], "v": s[2], "rec": 0})),
+                12 => out.emit_to(si, json!({"ev": "CompStep", "arm": 12, "i": s[1], "v": s[2], "rec": s[3]})),
+                13 => out.emit_to(si, json!({"ev": "CompStep", "arm": 13, "i": s[1], "v": 0, "rec": 0})),
+                _ => {}
+            }
+            n += 1;
+        }
+        st.case(pkt.to_string(), n > 2);
+        st.sessions += 1;
+    }
+    out.finish(st.into_json("compsteps",
+        "every packet of Gen_Packet and large recipes serialised with compression while the hook inside Name::compress_append / plain_append records one event per name and per loop arm; replayed one TLC step per event against the suffix-table actions of MC_Compress; non-trivial = more than two events",
+        false));
+}
